@@ -211,6 +211,18 @@ CHECKS["C09"] = dict(
    design="5/C09", technique="Coq proof over translated operator tables; enumeration tests of the round trip",
    note="Trusted: Coq kernel; tools/py2coq.py; Model/Z3Conv.v (hand-written SMT-LIB meaning per Z3 operator name). Floats/strings not covered.")
 
+CHECKS["C03"] = dict(
+   text="Machine-checked proof (Coq) over Model/Str.v (strings as lists of code points, hence every character): the concrete folding functions of "
+        "backend_concrete/strings.py are the SMT-LIB string operations -- prefixof/suffixof/contains are the existential definitions, replace "
+        "rewrites the leftmost occurrence or leaves the string alone, substr is the standard's case split, indexof is the least position at or "
+        "after the start index or -1, to_int is defined on non-empty digit strings only and inverts from_int (C03_*). Tie: the extracted model "
+        "runs next to the real functions on strings with NUL, backslash, quotes, regex metacharacters, newline, non-ASCII characters and boundary "
+        "indices. How constants reach Z3, Z3's string theory and symbolic strings are NOT modelled: every fold is compared with the solver's "
+        "evaluation on symbolic operands pinned to the constants and with an independent reference (testing).",
+   design="5/C03", technique="Coq proofs of the concrete string functions against SMT-LIB definitions; output correspondence; fold-vs-solver tests",
+   note="Trusted: Coq kernel; Model/Str.v renders Python built-ins by hand. Five defects repaired (prefix/suffix via regex, indexof beyond the end, "
+        "to_int via int(), constants/values through Z3 escapes, single-argument concat).")
+
 REASONS = {}
 DEFAULT_REASON = "not claimed yet: its Coq model and correspondence harness are not built in this snapshot (see DESIGN.md section 10 for the order); no other technique is substituted"
 
